@@ -269,9 +269,14 @@ def audit(prop):
 def run_driver(lines, timeout=3600, exe=None):
     if not lines:
         return []
-    p = subprocess.run([exe or DRIVER], input="\n".join(lines) + "\n", stdout=subprocess.PIPE, stderr=subprocess.PIPE,
-                       text=True, timeout=timeout)
-    return p.stdout.split("\n")[:-1] if p.stdout.endswith("\n") else p.stdout.split("\n")
+    p = subprocess.Popen([exe or DRIVER], stdin=subprocess.PIPE, stdout=subprocess.PIPE, stderr=subprocess.DEVNULL, text=True)
+    try:
+        so, _ = p.communicate("\n".join(lines) + "\n", timeout=timeout)
+    except subprocess.TimeoutExpired:
+        p.kill()
+        so, _ = p.communicate()
+        raise Broken("the Lean driver did not answer %d request(s) within %d s (first: %s)" % (len(lines), timeout, lines[0][:120]))
+    return so.split("\n")[:-1] if so.endswith("\n") else so.split("\n")
 
 
 def run_driver_par(lines, nproc=None, timeout=3600):
@@ -285,14 +290,24 @@ def run_driver_par(lines, nproc=None, timeout=3600):
     import threading
     outs = [None] * nproc
 
+    timed_out = []
+
     def work(i):
-        o, _ = procs[i].communicate("\n".join(chunks[i]) + "\n", timeout=timeout)
+        try:
+            o, _ = procs[i].communicate("\n".join(chunks[i]) + "\n", timeout=timeout)
+        except subprocess.TimeoutExpired:
+            procs[i].kill()
+            o, _ = procs[i].communicate()
+            timed_out.append(i)
         outs[i] = o.split("\n")[:-1] if o.endswith("\n") else o.split("\n")
     ths = [threading.Thread(target=work, args=(i,)) for i in range(nproc)]
     for t in ths:
         t.start()
     for t in ths:
         t.join()
+    if timed_out:
+        raise Broken("the Lean driver did not answer within %d s (%d of %d worker processes timed out; first request: %s)"
+                     % (timeout, len(timed_out), nproc, lines[0][:120]))
     res = [None] * len(lines)
     for i in range(nproc):
         o = outs[i] or []
